@@ -1128,4 +1128,59 @@ theorem partialId_str : PartialId chkStr isStrV .typeError := by
       rename_i v
       cases v <;> simp [hintCheck, isStrV, binop]
 
+
+-- ------------------------------------------------------------------ C20: pure expressions keep the state
+
+mutual
+/-- The call-free part of `pureE`: literals, variables, operators, parentheses, list / tuple literals. -/
+def arithE : Expr → Bool
+  | .int .. => true
+  | .str .. => true
+  | .var .. => true
+  | .binop _ _ _ l r => arithE l && arithE r
+  | .paren _ _ e => arithE e
+  | .list _ _ es => arithL es
+  | .tuple _ _ es => arithL es
+  | _ => false
+def arithL : List Expr → Bool
+  | [] => true
+  | e :: rest => arithE e && arithL rest
+end
+
+theorem bind_state {a : Res × RefSem.St} {k : Val → RefSem.St → Res × RefSem.St} {s : RefSem.St}
+    (ha : a.2 = s) (hk : ∀ v, (k v s).2 = s) : (RefSem.bind a k).2 = s := by
+  obtain ⟨r, s1⟩ := a
+  simp only at ha; subst ha
+  cases r <;> first | exact hk _ | rfl
+
+structure KeepsState (cl : Bool) (p : Program) (n : Nat) : Prop where
+  ev : ∀ env s e, arithE e = true → (eval cl p n env s e).2 = s
+  lst : ∀ env s es, arithL es = true → (evalList cl p n env s es).2 = s
+
+theorem keepsState (cl : Bool) (p : Program) : ∀ n, KeepsState cl p n
+  | 0 => ⟨fun _ _ _ _ => rfl, fun _ _ _ _ => rfl⟩
+  | n + 1 => by
+    have ih := keepsState cl p n
+    constructor
+    · intro env s e he
+      cases e <;> simp only [arithE, Bool.and_eq_true, Bool.false_eq_true] at he
+      case int => rfl
+      case str => rfl
+      case var id u nm => simp only [eval]; split <;> rfl
+      case binop id u op l r =>
+        simp only [eval]
+        exact bind_state (ih.ev _ _ _ he.1) fun lv => bind_state (ih.ev _ _ _ he.2) fun rv => rfl
+      case paren id u x => simp only [eval]; exact ih.ev _ _ _ he
+      case list id u es => simp only [eval]; exact ih.lst _ _ _ he
+      case tuple id u es =>
+        simp only [eval]
+        exact bind_state (ih.lst _ _ _ he) fun vs => by split <;> rfl
+    · intro env s es he
+      cases es with
+      | nil => rfl
+      | cons e rest =>
+        simp only [arithL, Bool.and_eq_true] at he
+        simp only [evalList]
+        exact bind_state (ih.ev _ _ _ he.1) fun v => bind_state (ih.lst _ _ _ he.2) fun vs => by split <;> rfl
+
 end Extract
